@@ -7,8 +7,8 @@ import (
 	"fmt"
 	"math/rand"
 	"net"
-	"strconv"
 	"sort"
+	"strconv"
 	"strings"
 	"time"
 
@@ -16,6 +16,7 @@ import (
 	"github.com/insomniacslk/dhcp/dhcpv6"
 
 	"verif/internal/fw"
+	"verif/internal/model"
 	"verif/internal/pkt"
 )
 
@@ -25,11 +26,11 @@ import (
 // of requests and every reply serialises, parses back, re-serialises to the
 // same bytes and carries the same options as the in-memory response.
 type setupCase struct {
-	OtherProto bool `json:"other_proto,omitempty"` // list the plugin under the protocol it does not support
-	V6     bool     `json:"v6"`
-	Plugin string   `json:"plugin"`
-	Args   []string `json:"args"`
-	Seed   int64    `json:"seed"`
+	OtherProto bool     `json:"other_proto,omitempty"` // list the plugin under the protocol it does not support
+	V6         bool     `json:"v6"`
+	Plugin     string   `json:"plugin"`
+	Args       []string `json:"args"`
+	Seed       int64    `json:"seed"`
 }
 
 type setupEngine struct{}
@@ -173,6 +174,9 @@ func genSetupVector(rng *rand.Rand, idx int) (plugin string, v6 bool, args []str
 		args = rep(arity(1+rng.Intn(3)), append(append([]string{}, poolAddr4...), poolAddr6[:3]...))
 	case "searchdomains":
 		args = rep(arity(1+rng.Intn(3)), poolLabel)
+		if rng.Intn(6) == 0 {
+			args = longDomainList(rng)
+		}
 	case "server_id":
 		if v6 {
 			args = []string{argOf(rng, []string{"LL", "ll", "LLT", "duid-ll", "en", "uuid", "opaque", ""}), argOf(rng, []string{"00:11:22:33:44:55", "00-11-22-33-44-55", "0011.2233.4455", "00:11:22:33:44:55:66:77", "00:11:22", "", "zz:zz:zz:zz:zz:zz", "00:11:22:33:44:55:66:77:88:99:aa:bb:cc:dd:ee:ff:00:11:22:33"})}
@@ -347,6 +351,15 @@ func roundTrip(v6 bool, b []byte, r ReqRes) (string, string) {
 		if re := d.ToBytes(); !bytes.Equal(re, b) {
 			return "reply-not-stable", fmt.Sprintf("parse+serialise changes the datagram: sent %d bytes, re-serialised %d bytes", len(b), len(re))
 		}
+		if _, inner, err := pkt.Unwrap6(b); err == nil {
+			if m, err := pkt.ParseMsg6(inner); err == nil {
+				if vs, n := m.Get(24); n > 0 {
+					if names, ok := model.DecodeLabels(vs[0]); !ok {
+						return "option-undecodable", fmt.Sprintf("option 24 (%d bytes) is not a well-formed domain search list (decoded so far: %v)", len(vs[0]), names)
+					}
+				}
+			}
+		}
 		if r.Pre6 != "" {
 			_, inner, err := pkt.Unwrap6(b)
 			pre, _ := hex.DecodeString(r.Pre6)
@@ -360,6 +373,13 @@ func roundTrip(v6 bool, b []byte, r ReqRes) (string, string) {
 	d, err := dhcpv4.FromBytes(b)
 	if err != nil {
 		return "reply-does-not-parse", fmt.Sprintf("the datagram sent does not parse: %v", err)
+	}
+	if v := d.Options.Get(dhcpv4.GenericOptionCode(119)); v != nil {
+		// "parses back" includes the option's own syntax: a domain search list is a sequence of (possibly
+		// compressed, RFC 1035 4.1.4) names
+		if names, ok := model.DecodeLabels(v); !ok {
+			return "option-undecodable", fmt.Sprintf("option 119 (%d bytes) is not a well-formed domain search list (decoded so far: %v)", len(v), names)
+		}
 	}
 	if re := d.ToBytes(); !bytes.Equal(re, b) {
 		return "reply-not-stable", fmt.Sprintf("parse+serialise changes the datagram: sent %d bytes, re-serialised %d bytes", len(b), len(re))
